@@ -28,7 +28,7 @@ use std::sync::atomic;
 use std::sync::atomic::AtomicU32;
 
 #[cfg(starlark_verif)]
-use crate::verif::sync::AtomicU32;
+use crate::verif::sync::ChunkRefCount as AtomicU32;
 
 use dupe::Dupe;
 
